@@ -29,7 +29,9 @@ Delivered == /\ \A o \in 1..Len(X.processed) : ObsFinalOK(X.processed[o], N)    
              /\ X.printed_ok /\ X.regfiles_ok
 FileOK == X.p.saver => (X.fvalid /\ X.file = [k \in 1..Len(X.stream) |-> k - 1])
 C12 == (~X.stopped) => (Ended /\ Delivered)
-C13 == /\ ((~X.stopped) => FileOK) /\ X.joined_ok /\ X.regfiles_ok
+\* C13: the file holds exactly the blocks the tokenizer read (under every interleaving, stop or not) and the tokenizer was
+\* given every block the wrapped reader produced
+C13 == /\ FileOK /\ X.judged = Len(X.stream) /\ X.joined_ok /\ X.regfiles_ok
 C14 == X.stopped => (Ended /\ Delivered /\ FileOK /\ X.joined_ok)
 Bit(b) == IF b THEN 0 ELSE 1
 Mon == TLCSet(i, 1 + Bit(C12) + 2 * Bit(C13) + 4 * Bit(C14))
